@@ -321,6 +321,55 @@ def locale_sessions(ctx: Ctx):
     ctx.coverage["oracle"]["locale_sessions"] = len(items)
 
 
+# ----------------------------------------------------------------------------- D: test files with a PEP 263 coding cookie (F-97)
+COOKIE_VALUES = ["caf\xe9", "\u20acuro", "two\nlines \xe9\n", ["\xe4", "\u4e2d"], {"k\xfc": "v\U0001f40d"}, b"\xe9", "plain"]
+COOKIES = {
+    "latin-1": ("# -*- coding: latin-1 -*-\n", b""),
+    "latin-1+byte": ("# -*- coding: latin-1 -*-\n", "# caf\xe9 in a comment\n".encode("latin-1")),      # the file is no valid UTF-8
+    "cp1252": ("# coding: cp1252\n", "# price: 5 \u20ac\n".encode("cp1252")),
+    "utf-8 cookie": ("# -*- coding: utf-8 -*-\n", "# caf\xe9\n".encode("utf-8")),
+}
+
+
+def run_cookie_session(kind):
+    """create in a file whose encoding is declared by a coding cookie, then the same tests again without flags: the literals are read by Python with the
+    declared encoding, so they have to be written in it (or escaped)"""
+    import shutil
+    d = driver.scratch_dir()
+    try:
+        head, extra = COOKIES[kind]
+        body = ("from inline_snapshot import snapshot\nfrom vals import VALUES\n\n\n"
+                + "\n\n".join(f"def test_{i}():\n    assert VALUES[{i}] == snapshot()\n" for i in range(len(COOKIE_VALUES))))
+        driver.write_project(d, {"vals.py": "VALUES = " + ascii(COOKIE_VALUES) + "\n", "pyproject.toml": "[tool.inline-snapshot]\n",
+                                 "test_values.py": head.encode("ascii") + extra + body.encode("ascii")})
+        r1 = driver.run_pytest(d, ["--inline-snapshot=create"])
+        r2 = driver.run_pytest(d, [])
+        raw = (d / "test_values.py").read_bytes()
+        return {"kind": kind, "rc1": r1["rc"], "rc2": r2["rc"], "outcomes2": r2.get("outcomes"), "tail1": (r1["stdout"][-500:] + r1["stderr"][-300:]),
+                "tail2": r2["stdout"][-700:], "empty": raw.count(b"snapshot()"), "infra": r1.get("infra_error") or r2.get("infra_error")}
+    finally:
+        shutil.rmtree(d, ignore_errors=True)
+
+
+def cookie_sessions(ctx: Ctx, only=None):
+    from ..core import tmap
+    kinds = [k for k in COOKIES if only in (None, k)]
+    for o in tmap(run_cookie_session, kinds):
+        ctx.count(("cookie", o["kind"]), True)
+        if o.get("infra"):
+            raise RuntimeError("pytest session timed out twice (infrastructure)")
+        why = None
+        if o["rc1"] not in (0, 1) or "INTERNALERROR" in o["tail1"] or "Traceback" in o["tail1"]:
+            why = f"the create session ended with exit status {o['rc1']}: {o['tail1'][-300:]}"
+        elif o["empty"]:
+            why = f"{o['empty']} snapshots are still empty after the create session"
+        elif o["rc2"] != 0:
+            why = f"the values written by create do not read back: the next session (no flags) exits with {o['rc2']}: {o['tail2'][-400:]}"
+        if why:
+            ctx.report(f"strings created in a test file with the coding cookie `{o['kind']}`: {why}", {"kind": "cookie", "which": o["kind"]}, tag="F-97")
+    ctx.coverage["oracle"]["coding_cookie_sessions"] = len(kinds)
+
+
 def run(ctx: Ctx):
     ctx.coverage["rule"] = (
         "A: every string over a 17-symbol adversarial alphabet (quotes, backslash, LF, CR, TAB, NUL, DEL, soft hyphen, U+2028, astral, lone surrogate, blanks) "
@@ -335,6 +384,7 @@ def run(ctx: Ctx):
     corr_literals(ctx)
     e2e(ctx)
     locale_sessions(ctx)
+    cookie_sessions(ctx)
 
 
 def replay(ctx: Ctx, data):
@@ -349,6 +399,10 @@ def replay(ctx: Ctx, data):
         except Exception as e:  # noqa
             print(type(e).__name__, e)
             return False
+    if k == "cookie":
+        o = run_cookie_session(case["which"])
+        print(o)
+        return o["rc1"] in (0, 1) and not o["empty"] and o["rc2"] == 0
     if k == "locale":
         o = run_locale_session((case["locale"], case["fmt"]))
         print(o)
